@@ -1465,7 +1465,7 @@ class Kconfig(object):
                         if not val.startswith(("y", "n")):
                             log.warn(
                                 f"{escape(filename)}:{linenr}: "
-                                f"'{val}' is not a valid value for the {TYPE_TO_STR[sym.orig_type]} symbol "
+                                f"'{escape(val)}' is not a valid value for the {TYPE_TO_STR[sym.orig_type]} symbol "
                                 f"{sym.name}. Assignment ignored."
                             )
                             value_is_default = False
@@ -4762,7 +4762,7 @@ class Symbol:
             STR_TO_BOOL[self._sdkconfig_value] if self._sdkconfig_value in ("y", "n") else str(self._sdkconfig_value)
         ):
             log.note(
-                f"'{self._sdkconfig_value}' is not a valid value for the "
+                f"'{escape(str(self._sdkconfig_value))}' is not a valid value for the "
                 f"{TYPE_TO_STR[self.orig_type]} symbol {escape(self.name_and_loc)}. Assignment ignored."
             )
             return False
@@ -5603,7 +5603,7 @@ class Symbol:
             # Display bool values as n, y in the warning
             log.note(
                 "the value {} is invalid for {}, which has type {} -- assignment ignored".format(
-                    BOOL_TO_STR[value] if value in BOOL_TO_STR else f"'{value}'",
+                    BOOL_TO_STR[value] if value in BOOL_TO_STR else f"'{escape(str(value))}'",
                     escape(self.name_and_loc),
                     TYPE_TO_STR[self.orig_type],
                 )
@@ -6434,7 +6434,7 @@ class Choice:
             # Display bool values as n and y in the warning
             log.note(
                 "the value {} is invalid for {}, which has type {} -- assignment ignored".format(
-                    BOOL_TO_STR[value] if value in BOOL_TO_STR else f"'{value}'",
+                    BOOL_TO_STR[value] if value in BOOL_TO_STR else f"'{escape(str(value))}'",
                     escape(self.name_and_loc),
                     TYPE_TO_STR[self.orig_type],
                 )
